@@ -8,9 +8,19 @@ points) and every offset; no length bound.
 `junkMessagePositions`, `resolveCheckPos` are the transliterations in CLModel/Parser/Position.lean.
 -/
 import CLModel.Parser.Position
+import CLModel.Parser.PositionCache
 import CLModel.Proofs.C17
+import CLModel.Proofs.C17Formula
+import CLModel.Proofs.C17Lint
+import CLModel.Proofs.C17Checkers
+import CLModel.Proofs.C17Dtd
+import CLModel.Proofs.C17Resolve
+import CLModel.Proofs.C17PipeLint
+import CLModel.Proofs.C17PipeCmp
+import CLModel.Proofs.C08Basic
 namespace C17
 open P Pos
+open C17P (nlEndBefore numLines lineLen Target LintWhy DetailWhy junkText EntFacts PropsPosOK DtdPosKind)
 
 /-! ### the offset → (line, column) map -/
 
@@ -21,14 +31,104 @@ theorem linecol_cursor (s : Array Nat) (p : Nat) :
     linecol s (p : Int) = some (castLC (cursor s p)) :=
   linecol_nat s p
 
-/-- Declarative form: the line is 1 + the number of newlines before `p`; the column is 1 + the distance from
-    the start `b` of that line, where `b` is characterised by `IsLineStart` (≤ p, at the start of the text or
-    just after a newline, no newline in `[b, p)`), which determines it uniquely (`linecol_lineStart_unique`). -/
-theorem linecol_spec (s : Array Nat) (p : Nat) :
+/-- **The specification of `linecol`** (round 4: explicit, no existential).  For EVERY text and EVERY offset
+    `0 ≤ o ≤ len(text)` — the end of the text `o = len` included, texts with or without a final newline alike —
+
+        line   = 1 + (number of "\n" among the first o characters)
+        column = 1 + o − (index just after the last "\n" before o)          (0 when there is none)
+
+    `nlEndBefore l o` is `l[:o].rfind("\n") + 1`, written with `take`/`reverse`/`takeWhile`; that it IS the start of the
+    line of `o` (≤ o, at the text start or just after a newline, no newline in `[b, o)`) is the second conjunct, and
+    `linecol_lineStart_unique` says there is only one such index.  Only the character U+000A counts: the table of line
+    ends is `finditer` of the regenerated pattern of `re.compile("\n", re.M)` inside `linecol` (`Pos.lineEnds`,
+    proved to be the plain scan for code point 10 in Proofs/C17Engine), see `linecol_only_newline_counts`. -/
+theorem linecol_spec (s : Array Nat) (o : Nat) (ho : o ≤ s.size) :
+    linecol s (o : Int) =
+      some (((1 + (s.toList.take o).count 10 : Nat) : Int), ((1 + (o - nlEndBefore s.toList o) : Nat) : Int)) ∧
+    IsLineStart s.toList o (nlEndBefore s.toList o) := by
+  refine ⟨?_, C17P.nlEndBefore_isLineStart s.toList o (by simpa using ho)⟩
+  rw [linecol_nat, C17P.cursor_formula s o ho]
+  rfl
+
+/-- the same at the END of the text (`o = len`): the line is 1 + the number of newlines of the whole text, the column
+    is 1 + the length of what follows the last newline -/
+theorem linecol_spec_at_end (s : Array Nat) :
+    linecol s (s.size : Int) =
+      some (((1 + s.toList.count 10 : Nat) : Int), ((1 + (s.toList.reverse.takeWhile (· != 10)).length : Nat) : Int)) := by
+  have h := (linecol_spec s s.size (Nat.le_refl _)).1
+  rw [h]
+  have ht : s.toList.take s.size = s.toList := List.take_of_length_le (by simp)
+  have hle := C17P.takeWhile_length_le (· != 10) s.toList.reverse
+  simp only [List.length_reverse, Array.length_toList] at hle
+  unfold nlEndBefore
+  simp only [ht, Array.length_toList]
+  congr 3
+  omega
+
+/-- a text that does NOT end in a newline: the end of the text is on the last line, in a column ≥ 2
+    (`splitlines(True)`-style tables, which have no entry for an unterminated last line, get this wrong) -/
+theorem linecol_no_final_newline (s : Array Nat) (c : Nat) (hlast : s.toList.getLast? = some c) (hc : c ≠ 10) :
+    ∃ col : Nat, 2 ≤ col ∧ linecol s (s.size : Int) = some (((numLines s.toList : Nat) : Int), (col : Int)) := by
+  rw [linecol_spec_at_end]
+  refine ⟨1 + (s.toList.reverse.takeWhile (· != 10)).length, ?_, rfl⟩
+  have : s.toList.reverse.head? = some c := by simpa using hlast
+  cases hr : s.toList.reverse with
+  | nil => rw [hr] at this; cases this
+  | cons x xs =>
+    rw [hr] at this
+    simp only [List.head?_cons, Option.some.injEq] at this
+    subst this
+    simp [hc]
+    omega
+
+/-- a text that ends in a newline: the end of the text is column 1 of the line after it -/
+theorem linecol_after_final_newline (s : Array Nat) (hlast : s.toList.getLast? = some 10) :
+    linecol s (s.size : Int) = some (((numLines s.toList : Nat) : Int), 1) := by
+  rw [linecol_spec_at_end]
+  have : s.toList.reverse.head? = some 10 := by simpa using hlast
+  cases hr : s.toList.reverse with
+  | nil => rw [hr] at this; cases this
+  | cons x xs =>
+    rw [hr] at this
+    simp only [List.head?_cons, Option.some.injEq] at this
+    subst this
+    simp [numLines]
+
+/-- ONLY "\n" counts: in a text without U+000A every offset is on line 1, whatever other line-breaking characters it
+    has (form feed, vertical tab, CR, U+0085, U+2028, U+2029, U+001C…U+001E — `str.splitlines` would split there) -/
+theorem linecol_only_newline_counts (s : Array Nat) (h : ∀ c ∈ s.toList, c ≠ 10) (p : Nat) :
+    linecol s (p : Int) = some (1, (p : Int) + 1) := by
+  rw [linecol_nat]
+  have hno := walkLC_no_nl s.toList p 1 1 (by
+    intro j _ hj
+    exact h 10 (List.mem_of_getElem? hj) rfl)
+  unfold cursor
+  rw [hno]
+  simp [castLC]; omega
+
+/-- **inside the text**: for `0 ≤ o ≤ len` the reported pair satisfies `1 ≤ line ≤ number of lines` and
+    `1 ≤ column ≤ length of that line + 1`, and the pair denotes offset `o` again (so the character at (line, column) is
+    the character at `o`) -/
+theorem linecol_in_text (s : Array Nat) (o : Nat) (ho : o ≤ s.size) :
+    ∃ l c len : Nat, linecol s (o : Int) = some ((l : Int), (c : Int)) ∧ 1 ≤ l ∧ l ≤ numLines s.toList ∧ 1 ≤ c ∧
+      lineLen s.toList (l - 1) = some len ∧ c ≤ len + 1 ∧ offsetOf s (l, c) = some o := by
+  obtain ⟨h1, h2, h3, ⟨len, h4, h5⟩, h6⟩ := C17P.cursor_in_text s o ho
+  exact ⟨(cursor s o).1, (cursor s o).2, len, linecol_nat s o, h1, h2, h3, h4, h5, h6⟩
+
+/-- the older declarative form, for every offset (also beyond the end of the text, where columns keep counting):
+    some line start `b` in the sense of `IsLineStart` -/
+theorem linecol_lineStart_spec (s : Array Nat) (p : Nat) :
     ∃ b, IsLineStart s.toList p b ∧
       linecol s (p : Int) = some (((1 + (s.toList.take p).count 10 : Nat) : Int), ((p - b + 1 : Nat) : Int)) := by
   obtain ⟨b, hb, hc⟩ := cursor_spec s p
   exact ⟨b, hb, by rw [linecol_nat, hc]; rfl⟩
+
+/-- **the cached line table is transparent**: `Parser.Context` builds `_lines` on the first `linecol` call and reuses
+    it; any sequence of calls on ONE context object (in any order: whichever call builds the table) returns exactly
+    what a fresh computation returns for each position -/
+theorem linecol_cache_transparent (contents : Array Nat) (xs : List Int) :
+    (({ contents := contents } : Ctx).linecolSeq xs).1 = xs.map (linecol contents) :=
+  (C17P.ctx_linecolSeq xs { contents := contents } (Or.inl rfl)).1
 
 theorem linecol_lineStart_unique (s : Array Nat) (p b b' : Nat)
     (h : IsLineStart s.toList p b) (h' : IsLineStart s.toList p b') : b = b' :=
@@ -276,6 +376,382 @@ theorem check_pos_in_range_fluent (s : Array Nat) (e : Entry) (n : Nat) (h : e.s
     by show fluentValuePosition s e (some (n : Int)) = _; rw [fluent_value_position, position_spec]; simp; rfl,
     linecol_nat s s.size, cursor_mono s _ _ (by omega), cursor_mono s _ _ (by simpa using h)⟩
 
+/-! ### round 4 — the checkers composed: what every yielded position points at
+
+The checkers are modelled by other properties (C05 base check, C06 `PropCk`, C07 `Dtd`, C08 `Ftl`); the theorems
+below say, for ALL inputs of those models, what each position they yield is, so that the hypotheses
+"the checker's offset stays inside what it indexes" of `check_pos_in_range_*` are discharged
+(`check_pos_target`, `check_pos_in_range`). -/
+
+/-- base `Checker.check`: every `EntityPos` is the offset of a U+FFFD inside `l10nEnt.all` -/
+theorem base_check_positions (all : Array Nat) : ∀ r ∈ Checks.baseCheck all, all[r.pos]? = some 0xFFFD :=
+  C17P.baseCheck_pos all
+
+/-- `PropertiesChecker.check`, for ALL entity pairs, unconditionally: every position is
+    an `EntityPos` at a U+FFFD of `all`; or the int 0; or (category escape) the offset of a backslash in `raw_val`; or
+    (category printf) the offset of a `%` in the unescaped value `val` -/
+theorem properties_check_positions (e : PropCk.Ents) (fs : List PropCk.Finding) (v : List Nat)
+    (hc : PropCk.check e = some fs) (hv : PropCk.unescape e.l10nRaw = some v) :
+    ∀ f ∈ fs, PropsPosOK e v f :=
+  C17P.props_check_pos e fs v hc hv
+
+/-- … hence inside what `compare`/`lint` add it to: an `EntityPos` is `< len(all)`, an int is `≤ len(raw_val)`
+    (printf offsets index `val`, which is never longer than `raw_val`: `properties_val_not_longer`) -/
+theorem properties_check_pos_bound (e : PropCk.Ents) (fs : List PropCk.Finding) (hc : PropCk.check e = some fs) :
+    ∀ f ∈ fs, match f.pos with
+      | .ent n => n < e.l10nAll.length
+      | .val n => n ≤ e.l10nRaw.length :=
+  C17P.props_check_pos_bound e fs hc
+
+theorem properties_val_not_longer (raw v : List Nat) (h : PropCk.unescape raw = some v) :
+    v.length ≤ raw.length ∧ ((∀ c ∈ raw, c ≠ 92) → v = raw) :=
+  ⟨C17P.unescape_length_le raw v h, C17P.unescape_id raw v h⟩
+
+/-- `DTDChecker.check`, whatever expat answers for the four documents (`xmlParse` is a parameter): every position is
+    an `EntityPos` at a U+FFFD of `all`; the pair (0, 0) of the warnings (→ `dtd_tuple_line_zero`); the pair `errorPos`
+    computes from an expat (line, column) of one of the documents (→ `dtd_expat_mapping`); the int 0 (number, CSS);
+    or an int of the Android content checks (`extra_tests`, offsets into the XML text content) -/
+theorem dtd_check_positions (xmlParse : Dtd.Bytes → Dtd.ParseRes) (i : Dtd.Inp) :
+    ∀ r ∈ (Dtd.check xmlParse i).results, DtdPosKind xmlParse i r.pos :=
+  C17P.dtd_check_pos xmlParse i
+
+/-- How the checker maps an expat position back (error inside the value part of the synthetic document, i.e. expat's
+    line − 1 does not exceed the number of lines of the value): `lnr = line − 1`;
+    line 2 (the `<elem>` line = first line of the value) ↦ `(1, col − 6)`;
+    line `2 + j`, `j ≥ 1` ↦ `(1 + j, col)` with expat's 0-based column UNCHANGED (root of C17-dtd-pair-later-line-column);
+    line 1 (the DOCTYPE line) ↦ `(0, col − 16)` (root of C17-dtd-pair-line-zero / second-document-layout). -/
+theorem dtd_expat_mapping (v : Dtd.Text) (line col : Nat) (hline : (line : Int) - 1 ≤ (Dtd.splitLines v).length) :
+    Dtd.errorPos v line col =
+      some (if line = 2 then (1, (col : Int) - 6) else if (line : Int) - 1 = 0 then (0, (col : Int) - 16)
+            else ((line : Int) - 1, (col : Int))) :=
+  C17P.errorPos_inside v line col hline
+
+/-- **DTD pairs stay in range under the expat contract.**  Contract: the pair `(lp, cp)` denotes a place of the value —
+    `lp ≥ 1`, line `lp` of the value exists (it starts `o` characters into the value; `o = 0` for `lp = 1`), and `cp`
+    columns further there is still no newline and the value has not ended.  Then `value_position((lp, cp))` lies between
+    the start of the entity and the end of the file.  (For `lp = 1` it is exact, `dtd_tuple_position_partial`; for
+    `lp ≥ 2` it is one column short, `dtd_tuple_later_line_off_by_one`; `lp = 0` is outside the contract and falls
+    BEFORE the entity, `dtd_tuple_line_zero`.) -/
+theorem dtd_pair_in_range_partial (s : Array Nat) (e : Entry) (vs ve lp o cp : Nat) (hs : e.s ≤ vs)
+    (hve : vs + o + cp ≤ ve) (hsz : ve ≤ s.size) (hlp : 1 ≤ lp)
+    (ho : lineStartOfLine (s.toList.drop vs) (lp - 1) = some o)
+    (hnl : ∀ j, j < cp → s[vs + o + j]? ≠ some 10) :
+    ∃ a b c, position s e 0 = some a ∧ dtdValuePositionTuple s (some ((vs : Int), (ve : Int))) (lp : Int) (cp : Int) = some b ∧
+      linecol s (s.size : Int) = some c ∧ lexLeI a b ∧ lexLeI b c := by
+  have ha : position s e 0 = some (castLC (cursor s e.s)) := by rw [position_spec]; simp
+  by_cases h1 : lp = 1
+  · subst h1
+    have ho0 : o = 0 := by simpa [lineStartOfLine] using ho.symm
+    subst ho0
+    have := dtd_tuple_position_partial s vs ve cp (by simpa using hnl)
+    refine ⟨_, _, _, ha, by rw [show ((1 : Nat) : Int) = 1 from rfl, this]; exact linecol_nat s (vs + cp),
+      linecol_nat s s.size, cursor_mono s _ _ (by omega), cursor_mono s _ _ (by omega)⟩
+  · obtain ⟨l, c, hreal, hrep⟩ := dtd_tuple_later_line_off_by_one s vs ve lp o cp (by omega) ho hnl
+    refine ⟨_, _, _, ha, hrep, linecol_nat s s.size, ?_, ?_⟩
+    · -- the reported line is beyond the line of the value start, which is at or after the entity start
+      have hline : ((cursor s vs).1 : Int) < (l : Int) := by
+        have h2 : dtdValuePositionTuple s (some ((vs : Int), (ve : Int))) (lp : Int) (cp : Int)
+            = some (((cursor s vs).1 : Int) + ((lp : Int) - 1), (cp : Int)) := by
+          unfold dtdValuePositionTuple
+          rw [value_position_spec]
+          have hne : ¬ ((lp : Int) == 1) = true := by simp; omega
+          simp [castLC, hne]
+        rw [h2] at hrep
+        have := (Prod.mk.inj (Option.some.inj hrep)).1
+        omega
+      have hmono := cursor_mono s e.s vs hs
+      unfold lexLeI lexLtI castLC at hmono ⊢
+      simp only at hmono ⊢
+      rcases hmono with hm | hm | hm
+      · have := (Prod.mk.inj hm).1; right; left; omega
+      · right; left; omega
+      · right; left; omega
+    · -- one column before the real character, which is inside the text
+      have hmono := cursor_mono s (vs + o + cp) s.size (by omega)
+      rw [linecol_nat] at hreal
+      have hcur := Option.some.inj hreal
+      unfold castLC at hcur
+      have h1' := (Prod.mk.inj hcur).1
+      have h2' := (Prod.mk.inj hcur).2
+      unfold lexLeI lexLtI castLC at hmono ⊢
+      simp only at hmono ⊢
+      rcases hmono with hm | hm | hm
+      · have a1 := (Prod.mk.inj hm).1; have a2 := (Prod.mk.inj hm).2
+        right; right; constructor <;> omega
+      · right; left; omega
+      · right; right; constructor <;> omega
+
+/-- **The expat contract, composed.**  Suppose expat reports the character at value offset `q` in its own coordinates
+    for the first synthetic document `<!DOCTYPE elem [decls]>\n<elem>VALUE</elem>`: line `2 + nl` (`nl` = newlines of the
+    value before `q`) and the 0-based column in that line, `+ 6` on the `<elem>` line.  Then the checker's `errorPos`
+    turns it into the pair `(1 + nl, q − b)` (`b` = start of that value line) and `DTDEntity.value_position` reports
+    * for `nl = 0` EXACTLY the pair of the character `val_span[0] + q` of the file;
+    * for `nl ≥ 1` the right line and a column ONE TOO SMALL (finding C17-dtd-pair-later-line-column).
+    (`hlines`: expat's line does not exceed the `splitlines()` count of the value, else the checker clamps to the end of
+    the last line.)  Which (line, column) expat really reports for an error is external; the harness observes it. -/
+theorem dtd_expat_offset_position (s : Array Nat) (vs ve q : Nat) (hve : ve ≤ s.size) (hq : vs + q ≤ ve)
+    (hlines : (((P.slice s vs ve).take q).count 10 : Int) + 1 ≤ (Dtd.splitLines (P.slice s vs ve)).length) :
+    ∃ lp cp : Nat,
+      Dtd.errorPos (P.slice s vs ve) (((P.slice s vs ve).take q).count 10 + 2)
+        ((q - nlEndBefore (P.slice s vs ve) q) + (if ((P.slice s vs ve).take q).count 10 = 0 then 6 else 0))
+        = some ((lp : Int), (cp : Int)) ∧
+      (((P.slice s vs ve).take q).count 10 = 0 →
+        dtdValuePositionTuple s (some ((vs : Int), (ve : Int))) lp cp = linecol s ((vs + q : Nat) : Int)) ∧
+      (((P.slice s vs ve).take q).count 10 ≠ 0 →
+        ∃ l c : Nat, linecol s ((vs + q : Nat) : Int) = some ((l : Int), ((c + 1 : Nat) : Int)) ∧
+          dtdValuePositionTuple s (some ((vs : Int), (ve : Int))) lp cp = some ((l : Int), (c : Int))) := by
+  generalize hv : P.slice s vs ve = v at hlines ⊢
+  generalize hnl : (v.take q).count 10 = nl at hlines ⊢
+  have hvlen : v.length = ve - vs := by rw [← hv]; exact C17P.slice_length hve
+  have hqv : q ≤ v.length := by omega
+  have hb := C17P.nlEndBefore_isLineStart v q hqv
+  have hble := C17P.nlEndBefore_le v q
+  have hlso : lineStartOfLine v nl = some (nlEndBefore v q) := by rw [← hnl]; exact C17P.lso_of_offset v q hqv
+  have hget : ∀ j, j < ve - vs → v[j]? = s[vs + j]? := by
+    intro j hj; rw [← hv]; exact C17P.slice_get_of hve (by omega)
+  refine ⟨nl + 1, q - nlEndBefore v q, ?_, ?_, ?_⟩
+  · rw [C17P.errorPos_inside v (nl + 2) _ (by push_cast; omega)]
+    by_cases h0 : nl = 0
+    · subst h0; simp
+    · have h2 : ¬ (nl + 2 = 2) := by omega
+      have h1 : ¬ (((nl + 2 : Nat) : Int) - 1 = 0) := by push_cast; omega
+      simp only [h2, h1, h0, if_false]
+      congr 2 <;> push_cast <;> omega
+  · intro h0
+    subst h0
+    have hb0 : nlEndBefore v q = 0 := by simpa [lineStartOfLine] using hlso.symm
+    rw [hb0] at hb ⊢
+    have := dtd_tuple_position_partial s vs ve q (by
+      intro j hj
+      rw [← hget j (by omega)]
+      exact hb.2.2 j (Nat.zero_le _) hj)
+    simpa using this
+  · intro h0
+    have ho : lineStartOfLine (s.toList.drop vs) (nl + 1 - 1) = some (nlEndBefore v q) := by
+      rw [Nat.add_sub_cancel]
+      apply C17P.lso_take (s.toList.drop vs) (ve - vs)
+      rw [← P.slice_eq s vs ve hve, hv]; exact hlso
+    obtain ⟨l, c, h1, h2⟩ := dtd_tuple_later_line_off_by_one s vs ve (nl + 1) (nlEndBefore v q) (q - nlEndBefore v q)
+      (by omega) ho (by
+        intro j hj
+        rw [Nat.add_assoc, ← hget _ (by omega)]
+        exact hb.2.2 _ (by omega) (by omega))
+    refine ⟨l, c, ?_, by simpa using h2⟩
+    rw [show vs + q = vs + nlEndBefore v q + (q - nlEndBefore v q) by omega]
+    exact h1
+
+/-- `FluentChecker.check` (model `Ftl`, C08): after the sort every position is 0 or the span start of an AST node the
+    visitors recorded, made relative to the entry (`pos − entry.span.start`).  The spans come from fluent.syntax
+    (external); under its contract `entry.start ≤ pos ≤ entry.end` the offset satisfies the hypothesis of
+    `check_pos_in_range_fluent`. -/
+theorem fluent_check_positions (start : Nat) (msgs : List Ftl.Msg) :
+    ∀ o ∈ Ftl.finish start msgs, o.pos = 0 ∨ ∃ m ∈ msgs, m.pos ≠ 0 ∧ o.pos = (m.pos : Int) - (start : Int) := by
+  intro o ho
+  simp only [Ftl.finish, List.mem_map] at ho
+  obtain ⟨m, hm, rfl⟩ := ho
+  have hm' := (Ftl.mem_sortBy _ msgs m).1 hm
+  by_cases h0 : m.pos = 0
+  · left; simp [h0]
+  · right; exact ⟨m, hm', h0, by simp [h0]⟩
+
+theorem fluent_check_pos_in_range (s : Array Nat) (e : Entry) (msgs : List Ftl.Msg)
+    (hcontract : ∀ m ∈ msgs, m.pos ≠ 0 → e.s ≤ m.pos ∧ m.pos ≤ e.e) (hse : e.s ≤ e.e) (he : e.e ≤ s.size) :
+    ∀ o ∈ Ftl.finish e.s msgs, ∃ a b c, position s e 0 = some a ∧ resolveCheckPos s .fluent e (.offset o.pos) = some b ∧
+      linecol s (s.size : Int) = some c ∧ lexLeI a b ∧ lexLeI b c := by
+  intro o ho
+  rcases fluent_check_positions e.s msgs o ho with h0 | ⟨m, hm, hne, hpos⟩
+  · rw [h0]; exact check_pos_in_range_fluent s e 0 (by omega)
+  · obtain ⟨h1, h2⟩ := hcontract m hm hne
+    have : o.pos = ((m.pos - e.s : Nat) : Int) := by rw [hpos]; omega
+    rw [this]
+    exact check_pos_in_range_fluent s e (m.pos - e.s) (by omega)
+
+/-! ### round 4 — `check_pos_in_range` for compare and lint WITHOUT the abstract hypothesis (ini, inc, po, properties)
+
+`Pipe.parseFile` is the parse stage of the composed pipeline (C01 parser model + C18 junk ids + C02 values),
+`Pipe.runChecker` the checker of the format (base `Checker` for ini/inc/po, `PropertiesChecker` for properties),
+`Pos.resolveCheckPos … .plain` the `isinstance(pos, EntityPos)` dispatch of compare and lint. -/
+
+def CoveredFmt (f : P.Fmt) : Prop := f = .ini ∨ f = .inc ∨ f = .po ∨ f = .properties
+
+theorem covered_checker {f : P.Fmt} (h : CoveredFmt f) : ∃ ck, Pipe.checkerOf f = some ck := by
+  rcases h with rfl | rfl | rfl | rfl <;> exact ⟨_, rfl⟩
+
+/-- **what the position of a checker result denotes**, for every text, every localizable entry `l` of its parse, every
+    reference entry `r` and locale: a `Target` — the offset of a U+FFFD inside the entry; an offset inside the value
+    span (its start, a backslash, or a `%` when the raw value has no backslash); or, when the entry has an attached
+    pre-comment, the KNOWN FINDING shape (U+FFFD at `a + k`, reported the pair of `span[0] + k`). -/
+theorem check_pos_target (fmt : P.Fmt) (hf : CoveredFmt fmt) (ck : Pipe.CheckerKind) (hck : Pipe.checkerOf fmt = some ck)
+    (s : Array Nat) (n0 n1 : Nat) (ents : List Pipe.PEnt) (hp : Pipe.parseFile fmt s n0 = .ok (ents, n1))
+    (l : Pipe.PEnt) (hl : l ∈ ents) (r : Pipe.PEnt) (locale : Option Pipe.Text) (rs : List Pipe.CheckRes)
+    (hrun : Pipe.runChecker ck locale r l = .ok rs) (c : Pipe.CheckRes) (hc : c ∈ rs) (b : Int × Int)
+    (hres : resolveCheckPos s .plain l.entry c.pos = some b) : Target s l.entry b := by
+  have hne : fmt ≠ .dtd := by rcases hf with rfl | rfl | rfl | rfl <;> decide
+  exact (C17P.resolve_target fmt ck hck s locale r l (C17P.parseFile_facts fmt hne s n0 ents n1 hp l hl) rs hrun c hc b hres).1
+
+/-- **`check_pos_in_range`, composed**: start of the entity ≤ reported position ≤ end of the file, for every checker
+    result of an entry without attached pre-comment, and for every int (value) position whatever the comments —
+    no hypothesis on the checker.  (With a pre-comment an `EntityPos` can fall beyond the end of the file: the last
+    `example` of this file, finding C17-entitypos-counts-from-precomment.) -/
+theorem check_pos_in_range (fmt : P.Fmt) (hf : CoveredFmt fmt) (ck : Pipe.CheckerKind) (hck : Pipe.checkerOf fmt = some ck)
+    (s : Array Nat) (n0 n1 : Nat) (ents : List Pipe.PEnt) (hp : Pipe.parseFile fmt s n0 = .ok (ents, n1))
+    (l : Pipe.PEnt) (hl : l ∈ ents) (r : Pipe.PEnt) (locale : Option Pipe.Text) (rs : List Pipe.CheckRes)
+    (hrun : Pipe.runChecker ck locale r l = .ok rs) (c : Pipe.CheckRes) (hc : c ∈ rs) (b : Int × Int)
+    (hres : resolveCheckPos s .plain l.entry c.pos = some b)
+    (hdom : l.entry.pc = none ∨ ∃ n, c.pos = .offset n) :
+    ∃ a cEnd, position s l.entry 0 = some a ∧ linecol s (s.size : Int) = some cEnd ∧ lexLeI a b ∧ lexLeI b cEnd := by
+  have hne : fmt ≠ .dtd := by rcases hf with rfl | rfl | rfl | rfl <;> decide
+  have hfacts := C17P.parseFile_facts fmt hne s n0 ents n1 hp l hl
+  obtain ⟨ht, hoff⟩ := C17P.resolve_target fmt ck hck s locale r l hfacts rs hrun c hc b hres
+  have hin : ∃ p, l.entry.s ≤ p ∧ p ≤ l.entry.e ∧ b = castLC (cursor s p) := by
+    rcases hdom with hno | hn
+    · obtain ⟨p, h1, h2, _, h4⟩ := ht.inside hfacts.e_le hno
+      exact ⟨p, h1, h2, h4⟩
+    · exact hoff hn
+  obtain ⟨p, h1, h2, rfl⟩ := hin
+  have he := hfacts.e_le
+  refine ⟨castLC (cursor s l.entry.s), castLC (cursor s s.size), ?_, linecol_nat s s.size, cursor_mono s _ _ h1,
+    cursor_mono s _ _ (by omega)⟩
+  rw [position_spec]; simp
+
+/-- a `Target` is inside the text — `1 ≤ line ≤ number of lines`, `1 ≤ column ≤ length of that line + 1`, the pair
+    denotes an offset `p ≤ len` (recoverable from the pair) inside the entry — unless it is the known finding shape -/
+theorem target_in_text (s : Array Nat) (e : Entry) (lc : Int × Int) (h : Target s e lc) (he : e.e ≤ s.size) :
+    (∃ l c len p : Nat, lc = ((l : Int), (c : Int)) ∧ 1 ≤ l ∧ l ≤ numLines s.toList ∧ 1 ≤ c ∧
+      lineLen s.toList (l - 1) = some len ∧ c ≤ len + 1 ∧ e.s ≤ p ∧ p ≤ e.e ∧ offsetOf s (l, c) = some p) ∨
+    (∃ a b k : Nat, e.pc = some (a, b) ∧ s[a + k]? = some 0xFFFD ∧ a ≤ e.s ∧ lc = castLC (cursor s (e.s + k))) := by
+  have inText : ∀ p, e.s ≤ p → p ≤ e.e → lc = castLC (cursor s p) →
+      ∃ l c len p : Nat, lc = ((l : Int), (c : Int)) ∧ 1 ≤ l ∧ l ≤ numLines s.toList ∧ 1 ≤ c ∧
+        lineLen s.toList (l - 1) = some len ∧ c ≤ len + 1 ∧ e.s ≤ p ∧ p ≤ e.e ∧ offsetOf s (l, c) = some p := by
+    intro p h1 h2 hlc
+    obtain ⟨a1, a2, a3, ⟨len, a4, a5⟩, a6⟩ := C17P.cursor_in_text s p (by omega)
+    exact ⟨_, _, len, p, hlc, a1, a2, a3, a4, a5, h1, h2, a6⟩
+  cases h with
+  | ufffd p h1 h2 _ h4 => exact Or.inl (inText p h1 (by omega) h4)
+  | value vs ve p _ _ h0 h1 h2 h3 _ h4 => exact Or.inl (inText p (by omega) (by omega) h4)
+  | shifted a b k hpc h1 _ h3 h4 => exact Or.inr ⟨a, b, k, hpc, h1, h3, h4⟩
+
+/-! ### round 4 — end to end: the composed pipelines of C05 (`Pipe.lintText`, `Pipe.compareFiles`) -/
+
+/-- **lint, end to end** (all texts of ini / inc / po / properties, with or without a reference file): every result of
+    `L10nLinter.lint_file` belongs to a localizable entry `pe` of the parsed file and is where `LintWhy` says:
+    * unparsed content — at the START of the junk, and its message names the text, the pair of the start and the pair
+      of the END of the junk span (both ends);
+    * "Duplicate string with ID" / "Changes to string require a new ID" — at the start of THIS occurrence;
+    * a checker finding — at a `Target` of the entry (U+FFFD / value offset / the known pre-comment shift). -/
+theorem lint_positions_end_to_end (fmt : P.Fmt) (hf : CoveredFmt fmt) (refText : Option (Array Nat)) (s : Array Nat)
+    (rs : List Lint.Result) (h : Pipe.lintText fmt refText s = .ok rs) :
+    ∃ cur n0 n1, Pipe.parseFile fmt s n0 = .ok (cur, n1) ∧ ∀ r ∈ rs, ∃ pe ∈ cur, LintWhy s pe r := by
+  obtain ⟨ck, hck⟩ := covered_checker hf
+  obtain ⟨cur, n0, n1, hp, _, hall⟩ := C17P.lintText_explained fmt ck hck refText s rs h
+  exact ⟨cur, n0, n1, hp, hall⟩
+
+/-- … and therefore every reported (lineno, column) is INSIDE the text — `1 ≤ line ≤ number of lines`,
+    `1 ≤ column ≤ length of that line + 1`, and the pair denotes an offset `p ≤ len` of the entry it belongs to
+    (`offsetOf` recovers it) — except for the known finding: a U+FFFD warning of an entry with an attached pre-comment,
+    whose pair is that of `span[0] + k` while the U+FFFD is at `a + k` (`a` = start of the pre-comment). -/
+theorem lint_positions_in_text (fmt : P.Fmt) (hf : CoveredFmt fmt) (refText : Option (Array Nat)) (s : Array Nat)
+    (rs : List Lint.Result) (h : Pipe.lintText fmt refText s = .ok rs) :
+    ∀ r ∈ rs,
+      (∃ l c len p : Nat, (r.lineno, r.column) = ((l : Int), (c : Int)) ∧ 1 ≤ l ∧ l ≤ numLines s.toList ∧ 1 ≤ c ∧
+        lineLen s.toList (l - 1) = some len ∧ c ≤ len + 1 ∧ p ≤ s.size ∧ offsetOf s (l, c) = some p) ∨
+      (∃ (e : Entry) (a b k : Nat), e.pc = some (a, b) ∧ s[a + k]? = some 0xFFFD ∧ a ≤ e.s ∧
+        (r.lineno, r.column) = castLC (cursor s (e.s + k))) := by
+  obtain ⟨ck, hck⟩ := covered_checker hf
+  obtain ⟨cur, n0, n1, hp, hfacts, hall⟩ := C17P.lintText_explained fmt ck hck refText s rs h
+  intro r hr
+  obtain ⟨pe, hpe, hwhy⟩ := hall r hr
+  have hf' := hfacts pe hpe
+  have inText : ∀ p, p ≤ s.size → (r.lineno, r.column) = castLC (cursor s p) →
+      ∃ l c len p : Nat, (r.lineno, r.column) = ((l : Int), (c : Int)) ∧ 1 ≤ l ∧ l ≤ numLines s.toList ∧ 1 ≤ c ∧
+        lineLen s.toList (l - 1) = some len ∧ c ≤ len + 1 ∧ p ≤ s.size ∧ offsetOf s (l, c) = some p := by
+    intro p hp hlc
+    obtain ⟨h1, h2, h3, ⟨len, h4, h5⟩, h6⟩ := C17P.cursor_in_text s p hp
+    exact ⟨_, _, len, p, hlc, h1, h2, h3, h4, h5, hp, h6⟩
+  have hse : pe.entry.s ≤ s.size := Nat.le_trans hf'.s_le_e hf'.e_le
+  cases hwhy with
+  | junk _ hpos _ => exact Or.inl (inText _ hse hpos)
+  | start _ hpos _ => exact Or.inl (inText _ hse hpos)
+  | check _ ht =>
+    cases ht with
+    | ufffd p h1 h2 _ h4 => exact Or.inl (inText p (by have := hf'.e_le; omega) h4)
+    | value vs ve p _ _ h0 h1 h2 h3 _ h4 => exact Or.inl (inText p (by have := hf'.e_le; omega) h4)
+    | shifted a b k hpc h1 h2 h3 h4 => exact Or.inr ⟨pe.entry, a, b, k, hpc, h1, h3, h4⟩
+
+/-- **compare, end to end** (all texts of ini / inc / po / properties; any `File` the observers can address; any list of
+    fresh observers with filters and quiet level; with or without merge staging): every error / warning item of
+    `observers.toJSON()["details"]` is a text of one of four kinds (`DetailWhy`):
+    `"<key> occurs <n> times"` and `"Parser error in en-US"` (no position);
+    `Junk.error_message()` of a Junk `j` of the localized file — its text, then the pair of its START, then the pair of
+    its END, in this order (`junkText`);
+    `"<msg> at line <l>, column <c> for <key>"` with `(l, c)` a `Target` of a localizable entry of the localized file. -/
+theorem compare_positions_end_to_end (fmt : P.Fmt) (hf : CoveredFmt fmt) (file : ObsM.File) (hm : ObsM.Modelled file)
+    (q : Nat) (flts : List (Option ObsM.Filter)) (refText l10nText : Array Nat) (mergeOn : Bool) (r : Pipe.Report)
+    (h : Pipe.compareFiles fmt file (ObsM.ObsList.init q (flts.map (ObsM.Obs.init q))) refText l10nText mergeOn = .ok r) :
+    ∃ l10n n0 n1, Pipe.parseFile fmt l10nText n0 = .ok (l10n, n1) ∧
+      ∀ leaf ∈ r.details, ∀ d ∈ leaf.2, (d.1 = .error ∨ d.1 = .warning) →
+        ∃ t, d.2 = .data (.str t) ∧ DetailWhy l10nText l10n t := by
+  obtain ⟨ck, hck⟩ := covered_checker hf
+  obtain ⟨l10n, n0, n1, hp, _, hall⟩ :=
+    C17P.compareFiles_details_explained fmt ck hck file hm q flts refText l10nText mergeOn r h
+  exact ⟨l10n, n0, n1, hp, hall⟩
+
+/-- the junk message: both pairs are inside the text, the first is the start of the junk (`1 ≤ …`, recoverable), the
+    second its end, and start ≤ end -/
+theorem junk_text_positions (fmt : P.Fmt) (hf : CoveredFmt fmt) (s : Array Nat) (n0 n1 : Nat) (ents : List Pipe.PEnt)
+    (hp : Pipe.parseFile fmt s n0 = .ok (ents, n1)) (j : Pipe.PEnt) (hj : j ∈ ents) :
+    j.entry.s ≤ j.entry.e ∧ j.entry.e ≤ s.size ∧
+    offsetOf s (cursor s j.entry.s) = some j.entry.s ∧ offsetOf s (cursor s j.entry.e) = some j.entry.e ∧
+    lexLeI (castLC (cursor s j.entry.s)) (castLC (cursor s j.entry.e)) := by
+  have hne : fmt ≠ .dtd := by rcases hf with rfl | rfl | rfl | rfl <;> decide
+  have hfacts := C17P.parseFile_facts fmt hne s n0 ents n1 hp j hj
+  exact ⟨hfacts.s_le_e, hfacts.e_le, offsetOf_cursor s _, offsetOf_cursor s _, cursor_mono s _ _ hfacts.s_le_e⟩
+
+/-! ### round 4 — duplicates: every occurrence reports ITS OWN position -/
+
+/-- Over the lint model (C19): for EVERY occurrence `e` of a key that occurs more than once in the file, the results
+    contain the "Duplicate string with ID" error positioned at the start of THAT occurrence (the cursor of its own
+    `span[0]`), and two occurrences that start at different offsets are reported at different (line, column) pairs —
+    a linter that memoised the position per key would violate this. -/
+theorem lint_duplicate_own_position (f : Lint.FileIn) (rs : List Lint.Result) (h : Lint.lintFile f = .ok rs)
+    (e : Lint.Ent) (hm : e ∈ f.cur) (he : e.kind = .entity) (hmode : e.mode ≠ .node)
+    (hc : Lint.keyCount f.cur e.key > 1) :
+    ∃ r ∈ rs, r.message = Gen.Tables.lintDupPrefix ++ e.key ∧ r.level = Gen.Tables.lintDupLevel ∧
+      (r.lineno, r.column) = castLC (cursor f.contents e.s) ∧
+      ∀ e' : Lint.Ent, e'.mode ≠ .node → e'.s ≠ e.s →
+        (Lint.dupResult f.lines e').lineno ≠ r.lineno ∨ (Lint.dupResult f.lines e').column ≠ r.column := by
+  have hmem := C19.lint_duplicates_reported f rs h e hm he hc
+  refine ⟨_, hmem, rfl, rfl, ?_, ?_⟩
+  · simp only [Lint.dupResult, Lint.FileIn.lines]
+    rw [C17P.lint_position_zero f.contents e hmode]
+  · intro e' hmode' hne
+    simp only [Lint.dupResult, Lint.FileIn.lines]
+    rw [C17P.lint_position_zero f.contents e hmode, C17P.lint_position_zero f.contents e' hmode']
+    by_cases h1 : (castLC (cursor f.contents e'.s)).1 = (castLC (cursor f.contents e.s)).1
+    · right
+      intro h2
+      have : castLC (cursor f.contents e'.s) = castLC (cursor f.contents e.s) := Prod.ext h1 h2
+      have hcur := castLC_inj this
+      have h3 := offsetOf_cursor f.contents e'.s
+      rw [hcur, offsetOf_cursor] at h3
+      exact hne (Option.some.inj h3).symm
+    · left; exact h1
+
+/-! ### round 4 — small facts the coverage analysis asked for -/
+
+/-- every negative offset means "the end of the span": `position(-1)`, `position(-2)`, … are the same call
+    (so `Junk.error_message`'s `self.position(-1)` can be replaced by any `position(-n)`: an equivalent mutant) -/
+theorem position_negative_offsets_agree (s : Array Nat) (e : Entry) (off : Int) (h : off < 0) :
+    position s e off = position s e (-1) := by
+  rw [position_spec, position_spec]; simp [h]
+
+/-- Android (`AndroidEntity.position`, `NodeMixin`-based `XMLJunk.position` and `value_position`): the objects carry no
+    spans, every position is `(0, offset)` — line 0 is not a line of the file, the property's claims do not apply to
+    android/strings.xml (`Lint.position` in `node` mode is the model, C19) -/
+theorem android_positions_are_zero_offset (lines : List Nat) (e : Lint.Ent) (hm : e.mode = .node) (off : Int) :
+    Lint.position lines e off = (0, off) ∧ Lint.valuePosition lines e (.value off) = .ok (0, off) := by
+  simp [Lint.position, Lint.valuePosition, hm]
+
 /-! ### non-vacuity and negation witnesses (the model itself, evaluated by the kernel) -/
 
 /-- "a\nbc\n": offset 3 is the `c` in line 2, column 2; offset 5 = end of file is line 3, column 1 -/
@@ -312,5 +788,68 @@ example :
     let s : Array Nat := #[35, 32, 99, 10, 107, 61, 65533]
     resolveCheckPos s .plain { kind := .entity, full := 0, s := 4, e := 7, vs := 6, ve := 7, pc := some (0, 3) }
       (.entityPos 6) = some (2, 7) ∧ linecol s 7 = some (2, 4) := by decide
+
+/-! #### round 4 -/
+
+/-- only "\n" counts: "a\fb\u2028c\x85d\r\v\x1c" (form feed, LINE SEPARATOR, NEL, CR, VT, FS) is ONE line for `linecol` -/
+example : linecol #[97, 12, 98, 8232, 99, 133, 100, 13, 11, 28] 10 = some (1, 11) := by decide
+
+/-- end of a text without / with a final newline: "a\nbc" ends at (2, 3), "a\nbc\n" at (3, 1) -/
+example : linecol #[97, 10, 98, 99] 4 = some (2, 3) ∧ linecol #[97, 10, 98, 99, 10] 5 = some (3, 1) := by decide
+
+example : nlEndBefore [97, 10, 98, 99] 4 = 2 ∧ nlEndBefore [97, 10, 98, 99, 10] 5 = 5 ∧ nlEndBefore [97, 98] 2 = 0 ∧
+    numLines [97, 10, 98, 99, 10] = 3 ∧ lineLen [97, 10, 98, 99, 10] 1 = some 2 ∧ lineLen [97, 10, 98, 99, 10] 2 = some 0 := by
+  decide
+
+/-- one context, five calls in "random" order, the first one (offset 5) builds the table -/
+example : (({ contents := #[97, 10, 98, 99, 10] } : Ctx).linecolSeq [5, 0, 3, 1, -1]).1 =
+    [some (3, 1), some (1, 1), some (2, 2), some (1, 2), some (1, 0)] := by decide
+
+def lintPairs (r : Except Pipe.PyErr (List Lint.Result)) : List (Int × Int) :=
+  match r with
+  | .ok rs => rs.map (fun x => (x.lineno, x.column))
+  | .error _ => []
+
+/-- lint end to end on "a=x\\q\n??\na=1" (properties): duplicate `a` at (1,1) — its own start —, the unknown escape
+    `\q` at the backslash (1,4), the junk `??\n` at its start (2,1), the second `a` duplicate at ITS start (3,1) -/
+example : lintPairs (Pipe.lintText .properties none #[97, 61, 120, 92, 113, 10, 63, 63, 10, 97, 61, 49]) =
+    [(1, 1), (1, 4), (2, 1), (3, 1)] := by decide +kernel
+
+/-- NEGATION WITNESS for the hypothesis `pc = none` of `check_pos_in_range` / the second disjunct of
+    `lint_positions_in_text` (finding C17-entitypos-counts-from-precomment), through the whole lint pipeline:
+    "# c\nk=�" is reported at (2, 7); the file ends at (2, 4) and the U+FFFD is at (2, 3) -/
+example : lintPairs (Pipe.lintText .ini none #[35, 32, 99, 10, 107, 61, 65533]) = [(2, 7)] ∧
+    linecol #[35, 32, 99, 10, 107, 61, 65533] 7 = some (2, 4) ∧ linecol #[35, 32, 99, 10, 107, 61, 65533] 6 = some (2, 3) := by
+  decide +kernel
+
+/-- NEGATION WITNESS for the hypothesis "no backslash in `raw_val`" of the `%` claim (`Target.value`): printf offsets
+    index the UNESCAPED value, the code adds them to the start of the RAW value.  "k=%S" against "k=\\u0041\\u0042 %":
+    `val` is "AB %", the lone `%` is at offset 3 of `val`, the report says column 6 — the `0` of `\\u0041` — while the
+    `%` of the file is at column 16.  In range (`check_pos_in_range`), 1-based, but not at the `%`. -/
+example :
+    let l10n : Array Nat := #[107, 61, 92, 117, 48, 48, 52, 49, 92, 117, 48, 48, 52, 50, 32, 37]
+    (match Pipe.compareTexts .properties #[107, 61, 37, 83] l10n false with
+     | .ok r => r.details.map (fun leaf => leaf.2.map (fun d => d.2))
+     | .error _ => []) = [[.data (.str [70, 111, 117, 110, 100, 32, 115, 105, 110, 103, 108, 101, 32, 37, 32, 97, 116, 32, 108,
+        105, 110, 101, 32, 49, 44, 32, 99, 111, 108, 117, 109, 110, 32, 54, 32, 102, 111, 114, 32, 107])]] ∧
+    linecol l10n 15 = some (1, 16) ∧ l10n[15]? = some 37 ∧ linecol l10n 5 = some (1, 6) ∧ l10n[5]? = some 48 := by
+  decide +kernel
+
+/-- non-vacuity of `dtd_expat_offset_position`: value "x\ny" at 12..15 of `<!ENTITY a "x\ny">`, offset q = 2 (the `y`):
+    one newline before it, line start 2 — expat's (3, 0) ↦ `errorPos` (2, 0) ↦ reported (2, 0), the `y` is at (2, 1) -/
+example :
+    let s : Array Nat := #[60, 33, 69, 78, 84, 73, 84, 89, 32, 97, 32, 34, 120, 10, 121, 34, 62]
+    P.slice s 12 15 = [120, 10, 121] ∧ ((P.slice s 12 15).take 2).count 10 = 1 ∧ nlEndBefore (P.slice s 12 15) 2 = 2 ∧
+    (Dtd.splitLines (P.slice s 12 15)).length = 2 ∧ Dtd.errorPos (P.slice s 12 15) 3 0 = some (2, 0) ∧
+    dtdValuePositionTuple s (some (12, 15)) 2 0 = some (2, 0) ∧ linecol s 14 = some (2, 1) := by decide
+
+/-- negation witness for the expat contract of `dtd_pair_in_range_partial` (`lp ≥ 1`): the pair (0, 0) of the DTD
+    warnings on `<!ENTITY a "x\ny">` is (0, 0), before the entity's (1, 1) — see the DTD example above -/
+example : dtdValuePositionTuple #[60, 33, 69, 78, 84, 73, 84, 89, 32, 97, 32, 34, 120, 10, 121, 34, 62] (some (12, 15)) 0 0
+    = some (0, 0) := by decide
+
+/-- `errorPos`: expat (2, 9) on a one-line value ↦ (1, 3); expat (3, 0) on "x\ny" ↦ (2, 0); expat (1, 20) ↦ (0, 4) -/
+example : Dtd.errorPos [120, 121, 122] 2 9 = some (1, 3) ∧ Dtd.errorPos [120, 10, 121] 3 0 = some (2, 0) ∧
+    Dtd.errorPos [120] 1 20 = some (0, 4) := by decide
 
 end C17
